@@ -346,7 +346,7 @@ _DO = [0]
 
 def do(rec, case, sample=False):
     _DO[0] += 1
-    if not rec.keep(_DO[0], 12):
+    if not rec.keep(_DO[0], 24):
         return []
     fs = rec.execute(case)
     nt = LAST.get('interesting', 0) > 0
@@ -521,7 +521,8 @@ def main(ctx):
                                      f'codec-preemptible programs: at most 1); larger programs / denser schedules sampled')
     if ctx.tier == 'quick':
         ctx.pmap('window_shard', [(w, k, 8) for w in (0, 1) for k in range(8)])
-        ctx.pmap('triple_shard', [(w, k, 4) for w in (0, 1) for k in range(4)])
+        if not ctx.reduced:
+            ctx.pmap('triple_shard', [(w, k, 4) for w in (0, 1) for k in range(4)])
     else:
         ctx.pmap('triple_shard', [(w, k, 8) for w in range(4) for k in range(8)])
     # volume: a long backlog through MultiPort / echo / wire in one go (non-preemptive schedule and one preemption)
@@ -531,6 +532,6 @@ def main(ctx):
         for first, sched in ((0, []), (1, []), (0, [[2000, 1]])):
             do(ctx, {'prog': prog, 'sched': sched, 'first': first})
     # a backlog beyond 2**17 on one port (sequential: the exactly-once clause does not need a second thread for this)
-    ctx.check({'kind': 'backlog', 'n': 140000}, sample=False)
+    ctx.check({'kind': 'backlog', 'n': 140000 if not ctx.reduced else 3000}, sample=False)
     n = 160 if ctx.tier == 'quick' else 6000
     ctx.pmap('hyp_shard', [(k, n // 8) for k in range(8)])
